@@ -88,6 +88,18 @@ FAMILY = [
 (platform (linux) (defsrc a b))
 (include base.kbd)
 """, {"base.kbd": "(deflayermap (l0) a x _ (multi lsft y))\n"}),
+    # deflayer == deflayermap with a wildcard pair in every position (`__`/`___` need process-unmapped-keys yes)
+    ("lmap_wild", """
+(defcfg process-unmapped-keys yes)
+(defsrc a b c)
+(deflayer l0 x (layer-while-held l1) x)
+(deflayer l1 _ XX _)
+""", {}),
+    # nested conditionals: lists inside lists, so that a conditional in the body of a conditional can stand at depth >= 2
+    ("nest2", """
+(defsrc a)
+(deflayer l0 (multi x (multi lsft y)))
+""", {}),
     # `environment` is an error for kanata_parser::cfg::new_from_str: Norm = REJECT, every variant is rejected
     ("env_unsupported", """
 (defsrc a)
@@ -97,6 +109,11 @@ FAMILY = [
 ]
 QUICK_DEPTH2 = {"tiny", "quoted_dollar", "alias_late", "alias_chain", "inc_platform"}
 THOROUGH_DEPTH3 = {"tiny"}
+# members on which Next offers the nested-conditional step (as the first step; 36 variants per site)
+NEST_QUICK = {"nest2"}
+NEST_THOROUGH = {"nest2", "tiny", "tpl_listarg", "alias_chain"}
+# members that stay at one step in every tier (the nest step alone gives > 1000 successors)
+DEPTH1_ONLY = {"nest2"}
 # family members the parser rejects for a reason outside the indirection layers (Norm is "ok" for them)
 PLAIN_INVALID = {"chordsv2_trans"}
 
@@ -108,11 +125,14 @@ def family_cfgs():
 # ---------------------------------------------------------------------------------- TLC instance
 MC_TEMPLATE = r"""---- MODULE %(mod)s ----
 EXTENDS CfgLang, Json
+RECURSIVE SetToSeq(_)
+SetToSeq(S) == IF S = {} THEN <<>> ELSE LET m == CHOOSE i \in S : \A j \in S : i <= j IN <<m>> \o SetToSeq(S \ {m})
 ActTableDef == %(acttable)s
 Base == %(base)s
 MaxSteps == %(maxsteps)d
 Deep == %(deep)s
 Deep3 == %(deep3)s
+NestB == %(nestb)s
 VARIABLES b, cfg, trail
 vars == <<b, cfg, trail>>
 N == Len(trail) + 1
@@ -132,9 +152,22 @@ Plat == \E loc \in Locs(cfg) : \E v \in 1..3 :
            CanPlatform(cfg, loc) /\ cfg' = StepPlatform(cfg, loc, v) /\ trail' = Append(trail, <<"platform", loc, v>>)
 LayerMap == \E loc \in Locs(cfg) :
            CanLayerMap(cfg, loc) /\ cfg' = StepLayerMap(cfg, loc) /\ trail' = Append(trail, <<"layermap", loc>>)
+LayerMapW == \E loc \in Locs(cfg) : \E w \in Wild :
+           CanLayerMap(cfg, loc) /\ \E G \in SUBSET (1..Len(RawSrc(cfg))) : \E pos \in 0..Len(RawSrc(cfg)) :
+           CanLayerMapW(cfg, loc, w, G, pos) /\ cfg' = StepLayerMapW(cfg, loc, w, G, pos)
+           /\ trail' = Append(trail, <<"layermapw", loc, w, SetToSeq(G), pos>>)
+\* a conditional in the body of a conditional: TLC enumerates the site p (whole item / an action), the position q1 of the
+\* outer conditional (top of the body / inside a list), the position q2 of the inner one below it, the form of both and
+\* the truth values (a false outer conditional makes the inner one irrelevant: one variant)
+Nest == b \in NestB /\ trail = <<>> /\
+        \E loc \in Locs(cfg) : \E p \in TplSites(ItemAt(cfg, loc)) : \E q1 \in AllPaths(GetP(ItemAt(cfg, loc), p)) :
+        \E q2 \in AllPaths(GetP(GetP(ItemAt(cfg, loc), p), q1)) : \E k1, k2 \in 1..4 : \E t1, t2 \in BOOLEAN :
+           CanNest(cfg, loc, p, q1, q2) /\ (t1 \/ (k2 = 1 /\ t2))
+           /\ cfg' = StepNest(cfg, loc, p, q1, q2, k1, k2, t1, t2, N)
+           /\ trail' = Append(trail, <<"nest", loc, p, q1, q2, k1, k2, t1, t2>>)
 Next == /\ Len(trail) < (IF b \in Deep3 THEN 3 ELSE IF b \in Deep THEN MaxSteps ELSE 1)
         /\ b' = b
-        /\ (Alias \/ Var \/ Tpl \/ Cond \/ Include \/ Plat \/ LayerMap)
+        /\ (Alias \/ Var \/ Tpl \/ Cond \/ Include \/ Plat \/ LayerMap \/ LayerMapW \/ Nest)
 BaseNorm == [k \in 1..Len(Base) |-> NormWhy(Base[k])]
 SameNorm(r, k) == r[1] = BaseNorm[k][1] /\ (r[1] = "ok" => r[2] = BaseNorm[k][2])
 \* the property on the specification itself: every reachable configuration has the normal form of its base
@@ -178,7 +211,7 @@ def cfg_tla(cfg):
     return "[main |-> <<%s>>, files |-> <<%s>>]" % (", ".join(tree_tla(t) for t in cfg["main"]), files)
 
 
-def run_spec(wd, fam, maxsteps, deep, name="MC_CfgLang", workers=12, timeout=1500, deep3=(), mutate=None):
+def run_spec(wd, fam, maxsteps, deep, name="MC_CfgLang", workers=6, timeout=1500, deep3=(), mutate=None, nest=()):
     """TLC over the family.  Returns (tlc result, bases, pairs).  mutate: text -> text of the generated module
     (specification self-test: a deliberately wrong rule must violate Transparent; returns the TLC result only)."""
     mod = name
@@ -188,6 +221,7 @@ def run_spec(wd, fam, maxsteps, deep, name="MC_CfgLang", workers=12, timeout=150
         "maxsteps": maxsteps,
         "deep": "{" + ", ".join(str(i + 1) for i, (n, _) in enumerate(fam) if n in deep) + "}",
         "deep3": "{" + ", ".join(str(i + 1) for i, (n, _) in enumerate(fam) if n in deep3) + "}",
+        "nestb": "{" + ", ".join(str(i + 1) for i, (n, _) in enumerate(fam) if n in nest) + "}",
     }
     txt = txt.replace("====\n", "NoEnv == <<>>\n====\n")
     if mutate:
@@ -344,6 +378,8 @@ def src_codes(cfg, mapped):
         inner = cfgrw.unwrap(it)[1]
         if cfgrw.head_txt(inner) == "deflayermap":
             codes += [names[a[1]] for a in inner[1][2::2] if a[0] == "A" and a[1] in names]
+    if cfgrw.raw_pum(cfg) and "q" in names:
+        codes.append(names["q"])          # a key outside defsrc: the layer tables cover all keys with process-unmapped-keys yes
     codes = sorted(set(codes))
     if not codes:
         codes = list(mapped or [])[:6]
@@ -509,13 +545,13 @@ def spec_selftest(wd, fam):
 
 
 # ---------------------------------------------------------------------------------- the check
-def crosscheck_transcription(fam, bases, pairs):
+def crosscheck_transcription(fam, bases, pairs, nest=()):
     """tools/cfgrw.py must be the same rules as CfgLang.tla: equal one-step successor sets for every family
     member, and every TLC trail replayed with the Python rules gives TLC's configuration."""
     for b, (name, cfg) in enumerate(fam, 1):
         if bases[b]["cfg"] != cfg:
             raise ToolError("family member %s: TLC's copy differs from the Python tree" % name)
-        mine = set(json.dumps([t, c], sort_keys=True) for t, c in cfgrw.successors(cfg, 1))
+        mine = set(json.dumps([t, c], sort_keys=True) for t, c in cfgrw.successors(cfg, 1, nest=name in nest))
         tlc = set(json.dumps([p["trail"][0], p["cfg"]], sort_keys=True) for p in pairs if p["b"] == b and len(p["trail"]) == 1)
         if mine != tlc:
             d = sorted(mine ^ tlc)[:2]
@@ -540,14 +576,15 @@ def run(tier, seed):
           "by_kind": {}}
     fam = family_cfgs()
     # ---- 1. the specification checks itself and enumerates the pairs
-    deep = QUICK_DEPTH2 if quick else set(n for n, _ in fam)
+    deep = QUICK_DEPTH2 if quick else set(n for n, _ in fam) - DEPTH1_ONLY
     deep3 = set() if quick else THOROUGH_DEPTH3
-    r, bases, pairs = run_spec(wd, fam, 2, deep, timeout=300 if quick else 2400, deep3=deep3)
+    nest = NEST_QUICK if quick else NEST_THOROUGH
+    r, bases, pairs = run_spec(wd, fam, 2, deep, timeout=600 if quick else 2400, deep3=deep3, nest=nest)
     res.states, res.transitions = r["distinct"] or 0, r["generated"] or 0
     bad = [p for p in pairs if not p["same"]]
     if bad:
         raise ToolError("specification: Norm differs after %s" % json.dumps(bad[0]["trail"]))
-    replayed = crosscheck_transcription(fam, bases, pairs)
+    replayed = crosscheck_transcription(fam, bases, pairs, nest)
     nself = spec_selftest(wd, fam)
     log("[c16] TLC: %d states, %d pairs printed (%d Norm=REJECT on both sides), %.0fs; transcription cross-check ok (%d trails)"
         % (res.states, len(pairs), sum(1 for p in pairs if p["norm"] == "reject"), r["wall_s"], replayed))
@@ -628,12 +665,15 @@ def run(tier, seed):
         "behaviour_runs_compared": st["behaviour_runs"], "trace_lines_compared": st["trace_lines"],
         "pairs_by_step_kinds": dict(sorted(st["by_kind"].items(), key=lambda kv_: -kv_[1])[:40]),
         "family": [n for n, _ in fam], "family_depth2": sorted(deep), "family_depth3": sorted(deep3),
+        "family_nest": sorted(nest),
         "random_generator": gen,
         "model_conformance": "ok" if st["spec_drift"] == 0 else "drift",
         "spec_drift_pairs": st["spec_drift"], "spec_drift_samples": st["spec_drift_samples"],
         "known_findings_seen": [k["signature"] for k in res.known],
         "explanation": "TLC checks on CfgLang.tla that every abstraction step (alias, var, template, conditional template, "
-                       "include, platform, deflayermap; all sites; compositions of 2 / 3 on the members listed in family_depth2 / family_depth3) "
+                       "nested conditionals (outer at the top of the body / inside a list / body = whole item, 4x4 forms, truth values; "
+                       "first step on the members in family_nest), include, platform, deflayermap, deflayermap with a wildcard pair "
+                       "_ / __ / ___ in every position; all sites; compositions of 2 / 3 on the members listed in family_depth2 / family_depth3) "
                        "preserves Norm, and prints every pair; each pair and each random composition on cfggen configurations "
                        "is loaded by the real parser: accepted iff accepted, equal parsed results by structure, equal traces "
                        "on shared random histories.",
